@@ -158,8 +158,25 @@ func toViolation(f *Finding, input string, cfg Config, idx int, out string) vh.V
 	}
 	opts := cfg.Options()
 	opts["inline"] = strconv.FormatBool(cfg.Inline)
+	// C09: whatever else differs, an output with bad-string / bad-url tokens that the input does not have is syntactically invalid
+	invalid := ""
+	if bad := badTokens(out); bad != "" && badTokens(input) == "" {
+		invalid = "invalid-output:" + bad + " "
+	}
 	return vh.Violation{Kind: kind, Signature: f.Signature(), Input: printable(input), InputHex: vh.Hex([]byte(input)), Options: opts,
-		Observed: printable(obs), Expected: exp, Detail: printable("output: " + out + "\noracle: " + f.Sig + "\n" + f.Detail), Case: idx}
+		Observed: printable(obs), Expected: exp, Detail: printable(invalid + "output: " + out + "\noracle: " + f.Sig + "\n" + f.Detail), Case: idx}
+}
+
+func badTokens(src string) string {
+	for _, t := range Tokenize(preprocess(src)) {
+		if t.K == KBadURL {
+			return "bad-url"
+		}
+		if t.K == KBadString {
+			return "bad-string"
+		}
+	}
+	return ""
 }
 
 func main() {
